@@ -129,6 +129,80 @@ def sc_save_json(M, file_exists, rows=2, cols=2, atomic=True, leftovers=False):
 
 
 @scenario
+def sc_save_twice(M, rows=1, cols=2):
+    """Two saves by this process with ANOTHER process saving in between (the results file is the only state a save
+    may rely on): the second save must start from what is in the file now - the other run's entry survives, the
+    entry of the first save survives, and the new entry is added."""
+    if not M.symbolic:
+        return _native_save_twice(M, rows, cols)
+    save = M.mod("run.save")
+    fs = M.pkg.fs
+    fs.files.clear(); fs.dirs.clear(); del fs.trace[:]; del fs.snapshots[:]
+    fs.stale_siblings = False
+    path = FSM.SpecPath(fs, "/results/data.json")
+    fs.dirs.add("/results")
+    D1 = FSM.SymDict(lambda k: False, other_keys=OTHER_NAMES)
+    D1.name = "run-7"
+    fs.files[path.p] = FSM.Doc(D1, "json")
+    save.save_json(path, "run-7", _output(M, save, rows, cols, tag="p"))
+    first = fs.files.get(path.p)
+    M.check("first.written", isinstance(first, FSM.Doc) and first.obj is D1 and set(D1.added) == {"run-7"})
+    # another process: read the file, added its own run, wrote it back (atomically) - a different mapping object now
+    D2 = FSM.SymDict(lambda k: False, other_keys=OTHER_NAMES + ["run-7", "run-of-another-process"])
+    D2.name = "run-8"
+    fs.files[path.p] = FSM.Doc(D2, "json")
+    out2 = _output(M, save, rows, cols, tag="q")
+    save.save_json(path, "run-8", out2)
+    final = fs.files.get(path.p)
+    ok = isinstance(final, FSM.Doc) and final.kind == "json"
+    M.check("second.document_written", ok)
+    M.check("second.starts_from_the_file_as_it_is_now", ok and final.obj is D2 and set(D2.added) == {"run-8"}
+            and not getattr(D2, "overwritten", None) and not getattr(D2, "deleted", None))
+    entry = D2.added.get("run-8")
+    M.check("second.entry_is_output_json", isinstance(entry, dict) and entry.get("data") == out2.data_list
+            and entry.get("actions") == out2.actions_list)
+
+
+def _native_save_twice(M, rows, cols):
+    import os
+    import pathlib
+    import shutil
+    import tempfile
+    import numpy as np
+    save = M.mod("run.save")
+
+    def out(i):
+        d = np.arange((rows + 1) * cols, dtype=float).reshape(rows + 1, cols) * (i + 1) + 0.25
+        a = np.arange(rows * cols, dtype=float).reshape(rows, cols)
+        return save.Output(d, a, Namespace(func=len, seed=i))
+    d = tempfile.mkdtemp(prefix="c19t_")
+    try:
+        path = pathlib.Path(d) / "data.json"
+        save.save_json(path, "run-7", out(1))
+        pid = os.fork()
+        if pid == 0:                                   # the other process
+            try:
+                save.save_json(path, "run-of-another-process", out(2))
+            finally:
+                os._exit(0)
+        os.waitpid(pid, 0)
+        save.save_json(path, "run-8", out(3))
+        got = save.get_outputs_from_file(path)
+        M.check("first.written", "run-7" in got)
+        M.check("second.document_written", "run-8" in got)
+        M.check("second.starts_from_the_file_as_it_is_now", set(got) == {"run-7", "run-of-another-process", "run-8"}
+                and np.array_equal(got["run-of-another-process"].data, out(2).data))
+        M.check("second.entry_is_output_json", "run-8" in got and np.array_equal(got["run-8"].data, out(3).data))
+        # the file moved away between two saves: the next save starts a fresh document
+        os.rename(path, str(path) + ".archived")
+        save.save_json(path, "run-9", out(4))
+        got2 = save.get_outputs_from_file(path)
+        M.check("second.starts_from_the_file_as_it_is_now", set(got2) == {"run-9"})
+    finally:
+        shutil.rmtree(d, ignore_errors=True)
+
+
+@scenario
 def sc_save_pipeline(M, rows=2, cols=2):
     """save(model_dir, name, out) - the entry point every command uses, ALL registered savers in their registered order
     (plots, data.json, coalition charts) - for a new run name: the entry written to data.json carries exactly the
